@@ -1078,7 +1078,11 @@ class _Visitor(ast.NodeVisitor):
                         kwargs[name] = kwarg_value.val
                     else:
                         return None
-            return KnownValue(func.val(*args, **kwargs))
+            try:
+                return KnownValue(func.val(*args, **kwargs))
+            except Exception as e:
+                self.ctx.show_error(f"Invalid NewType() call: {e}")
+                return None
         elif is_typing_name(func.val, "TypeVar"):
             arg_values = [self.visit(arg) for arg in node.args]
             kwarg_values = [(kw.arg, self.visit(kw.value)) for kw in node.keywords]
@@ -1088,7 +1092,9 @@ class _Visitor(ast.NodeVisitor):
                 )
                 return None
             name_val = arg_values[0]
-            if not isinstance(name_val, KnownValue):
+            if not isinstance(name_val, KnownValue) or not isinstance(
+                name_val.val, str
+            ):
                 self.ctx.show_error("TypeVar name must be a literal", node=node.args[0])
                 return None
             constraints = []
@@ -1118,7 +1124,9 @@ class _Visitor(ast.NodeVisitor):
                 )
                 return None
             name_val = arg_values[0]
-            if not isinstance(name_val, KnownValue):
+            if not isinstance(name_val, KnownValue) or not isinstance(
+                name_val.val, str
+            ):
                 self.ctx.show_error(
                     "ParamSpec name must be a literal", node=node.args[0]
                 )
